@@ -560,9 +560,16 @@ func (en *Engine) applyContract(st *State, f *Frame, x *ssa.Call, fn *ssa.Functi
 		}
 	}
 	// havoc frame
+	TS.mu.Lock()
+	freshLo := TS.fresh
+	TS.mu.Unlock()
+	nFactsBefore := len(st.facts)
 	for _, m := range fc.Modifies {
 		en.havocLvalue(st, sc, m)
 	}
+	TS.mu.Lock()
+	freshHi := TS.fresh
+	TS.mu.Unlock()
 	// result
 	var res Value
 	sig := fn.Signature
@@ -594,6 +601,11 @@ func (en *Engine) applyContract(st *State, f *Frame, x *ssa.Call, fn *ssa.Functi
 		st.assume(sc.evalBool(e.Expr))
 		en.assumedUsed[name+" (assume-ensures: "+e.Src+")"] = true
 	}
+	// a postcondition of the form  <fresh output cell> == <term over older values>  defines that
+	// cell: store the term itself, so that the value flows on syntactically
+	if freshHi > freshLo {
+		en.propagateDefs(st, sc, fc, nFactsBefore, freshLo, freshHi)
+	}
 	f.env[x] = res
 	return extra
 }
@@ -601,6 +613,14 @@ func (en *Engine) applyContract(st *State, f *Frame, x *ssa.Call, fn *ssa.Functi
 func (en *Engine) freshValue(st *State, t types.Type, prefix string) Value {
 	var facts []*Term
 	var v Value
+	switch t.Underlying().(type) {
+	case *types.Slice, *types.Interface, *types.Pointer:
+		v = en.freshOfType(st, t, prefix, &facts)
+		for _, f := range facts {
+			st.assume(f)
+		}
+		return v
+	}
 	if isScalarType(t) {
 		v = en.freshScalarValue(st, t, prefix, &facts)
 	} else {
@@ -668,4 +688,114 @@ func (en *Engine) havocSlice(st *State, l SliceV) {
 	inr := And(Le(l.Off, k), Lt(k, Add(l.Off, l.Len)))
 	st.assume(Forall(k, Imp(Not(inr), Eq(Select(na, k), Select(sa.Arr, k)))))
 	st.mem[l.R] = en.storePath(st, en.regionCell(st, l.R), l.Path, l.R.typ, &SymArrCell{Arr: na, N: sa.N, Elem: sa.Elem})
+}
+
+func freshIndex(t *Term) int {
+	if t.op != OVar {
+		return -1
+	}
+	i := strings.LastIndex(t.name, "!")
+	if i < 0 {
+		return -1
+	}
+	n := 0
+	for _, c := range t.name[i+1:] {
+		if c < '0' || c > '9' {
+			return -1
+		}
+		n = n*10 + int(c-'0')
+	}
+	return n
+}
+
+func (en *Engine) propagateDefs(st *State, sc *specCtx, fc *FuncContract, from, lo, hi int) {
+	isFresh := func(t *Term) bool {
+		n := freshIndex(t)
+		return n > lo && n <= hi
+	}
+	mentionsFresh := func(t *Term) bool {
+		found := false
+		walk(t, map[int]bool{}, func(x *Term) {
+			if isFresh(x) {
+				found = true
+			}
+		})
+		return found
+	}
+	sub := map[int]*Term{}
+	for _, f := range st.facts[from:] {
+		if f.op != OEq || f.args[0].sort != SInt {
+			continue
+		}
+		a, b := f.args[0], f.args[1]
+		if isFresh(b) && !isFresh(a) {
+			a, b = b, a
+		}
+		if isFresh(a) && !mentionsFresh(b) {
+			if _, dup := sub[a.id]; !dup {
+				sub[a.id] = b
+			}
+		}
+	}
+	if len(sub) == 0 {
+		return
+	}
+	var rewrite func(c Cell) Cell
+	rewrite = func(c Cell) Cell {
+		switch x := c.(type) {
+		case *Term:
+			if r, ok := sub[x.id]; ok {
+				return r
+			}
+			return x
+		case *ArrCell:
+			changed := false
+			es := make([]Cell, len(x.Elems))
+			for i, e := range x.Elems {
+				es[i] = rewrite(e)
+				if es[i] != e {
+					changed = true
+				}
+			}
+			if changed {
+				return &ArrCell{es}
+			}
+			return x
+		case *StructCell:
+			changed := false
+			fs := make([]Cell, len(x.Fields))
+			for i, e := range x.Fields {
+				fs[i] = rewrite(e)
+				if fs[i] != e {
+					changed = true
+				}
+			}
+			if changed {
+				return &StructCell{fs}
+			}
+			return x
+		}
+		return c
+	}
+	for _, m := range fc.Modifies {
+		loc := sc.lvalue(m.Expr)
+		var r *Region
+		switch l := loc.(type) {
+		case PtrV:
+			r = l.R
+		case SliceV:
+			r = l.R
+		}
+		if r == nil {
+			continue
+		}
+		if c, ok := st.mem[r]; ok {
+			st.mem[r] = rewrite(c)
+		}
+	}
+	// bounds of the defining terms carry over
+	for id, t := range sub {
+		_ = id
+		_ = t
+	}
 }
